@@ -124,6 +124,40 @@ search_index_proof!(search_index_n6, 6);
 search_index_proof!(search_index_n8, 8);
 search_index_proof!(search_index_n16, 16);
 
+/// A7 (route V's assumed contract of the std search, DESIGN.md 8.12), checked on the REAL
+/// `slice::binary_search_by` in exactly the form route V assumes it: bounded by the slice length.
+macro_rules! bsearch_contract_proof {
+    ($name:ident, $n:expr, $u:expr) => {
+        #[kani::proof]
+        #[kani::unwind($u)]
+        pub(crate) fn $name() {
+            let bt: [f32; $n] = kani::any();
+            let x: f32 = kani::any();
+            kani::assume(bt_ok(&bt) && pos01(x));
+            let j: usize = kani::any();
+            kani::assume(j < $n);
+            match bt.binary_search_by(|t| t.total_cmp(&x)) {
+                Ok(i) => assert!(i < $n && bt[i] <= x && x <= bt[i]),
+                Err(i) => {
+                    assert!(i <= $n);
+                    if j < i {
+                        assert!(bt[j] <= x);
+                    } else {
+                        assert!(x <= bt[j]);
+                    }
+                }
+            }
+        }
+    };
+}
+bsearch_contract_proof!(bsearch_contract_n1, 1, 5);
+bsearch_contract_proof!(bsearch_contract_n2, 2, 6);
+bsearch_contract_proof!(bsearch_contract_n3, 3, 7);
+bsearch_contract_proof!(bsearch_contract_n4, 4, 8);
+bsearch_contract_proof!(bsearch_contract_n8, 8, 12);
+bsearch_contract_proof!(bsearch_contract_n16, 16, 20);
+bsearch_contract_proof!(bsearch_contract_n64, 64, 68);
+
 // -- Repeat ------------------------------------------------------------------------------------
 
 /// C12: `Repeat` is totally ordered None < Times(1) <= Times(n) < ... <= Infinite, consistently.
